@@ -11,6 +11,23 @@ from .. import repo
 NoneType = type(None)
 
 
+def cvc5_check(smt2, timeout_s=30):
+    import subprocess, tempfile, os
+    if not smt2 or not os.path.exists('/usr/bin/cvc5'):
+        return 'unknown'
+    with tempfile.NamedTemporaryFile('w', suffix='.smt2', delete=False) as f:
+        f.write('(set-logic ALL)\n' + smt2.replace('(set-logic ALL)', ''))
+        path = f.name
+    try:
+        r = subprocess.run(['/usr/bin/cvc5', '--strings-exp', '--lang=smt2', f'--tlimit={timeout_s * 1000}', path], capture_output=True, text=True, timeout=timeout_s + 5)
+        out = r.stdout.strip().splitlines()
+        return out[0] if out and out[0] in ('sat', 'unsat') else 'unknown'
+    except Exception:
+        return 'unknown'
+    finally:
+        os.unlink(path)
+
+
 class ReturnSig(Exception):
     def __init__(self, v):
         self.v = v
@@ -157,11 +174,19 @@ class Executor:
         self.solver.add(z3.Not(fact))
         r = self.solver.check()
         m = self.solver.model() if r == z3.sat else None
+        smt2 = self.solver.to_smt2() if r == z3.unknown else None
         self.solver.pop()
         self.solver_time += time.time() - t
         self.n_queries += 1
         if r == z3.unknown:
-            raise Unsupported('solver unknown on validity query')
+            # portfolio: cvc5 decides many sequence/length queries z3 gives up on (DESIGN 2.2)
+            r2 = cvc5_check(smt2)
+            self.cvc5_queries = getattr(self, 'cvc5_queries', 0) + 1
+            if r2 == 'unsat':
+                return True, None
+            if r2 == 'sat':
+                return False, 'cvc5: sat'
+            raise Unsupported('solver unknown on validity query (z3 and cvc5)')
         return (r == z3.unsat), m
 
     def branch(self, cond, label='if'):
